@@ -1223,7 +1223,7 @@ def execute(schedule, ctx):
                     probes.get_ctl(x).arm({})
                 for sm in d.get('submodels', {}).values():
                     probes.get_ctl(sm).arm({})
-                kw = dict(op['opts'])
+                kw = S.solver_kwargs(op['opts'])
                 if 'trace' in d['index'] and op.get('trace'):
                     kw['trace'] = True
                 if 'submodels' in d:
